@@ -6,7 +6,8 @@
    (does the merge conflict? does a stage raise? does the serialisation end in a newline?) are case parameters: the
    harness measures them on the real library, independently of the command under test. *)
 From Coq Require Import List NArith Bool Arith.
-From NB Require Import Gen.MergeAppFacts Sys.MergeApp.
+From NB Require Import Gen.MergeAppFacts.
+From NB Require Import Sys.MergeApp.
 Import ListNotations.
 
 Record lib := { i_conflict : bool; i_fail : nat (* 0 none, 1 diff, 3 decide, 4 apply *); i_ser_nl : bool; i_dec_chunks : nat }.
